@@ -20,7 +20,7 @@ NA = {
 }
 
 PENDING = {k: 'applicable to this technique (see DESIGN.md section 3) but its check is not built yet in this revision; not claimed until it is quiet and sensitive'
-           for k in ('C04', 'C07', 'C08', 'C10', 'C11', 'C12', 'C19')}
+           for k in ('C04', 'C08', 'C10', 'C11', 'C12', 'C19')}
 
 CHECKS = {
  'C05': dict(
@@ -41,6 +41,14 @@ CHECKS = {
     note='Trusts: validity precondition (well-framed per the independent scanner and accepted by one-shot decode with empty remainder); '
          'the error hierarchy in pyasn1.error. Cut positions are exhaustive per item; items are sampled.',
     technique='deterministic simulation: exhaustive enumeration of the crash point within each seeded workload item, seeded arrival schedules for the surviving prefix'),
+ 'C07': dict(
+    engine='stream-world', category='exploration', design_ref='DESIGN.md section 3 (C07)',
+    text='Seeded search: one-shot decode(e||t) for five kinds of tail (empty, end-of-octets, zeros, another encoding, garbage) with a '
+         'byte-exact remainder oracle, and streams of 1-4 encodings under seeded schedules with the stream position asserted after '
+         'every yielded object against boundaries known from construction (tell() on seekable doubles, hand-off read on the non-seekable one).',
+    note='Trusts: the library encoder as the source of valid encodings (the property quantifies over its output); one-shot decode(e) as '
+         'the reference value. Open known findings F2 (stray end-of-octets after a definite explicit tag, test-pinned) and F6 are classified narrowly.',
+    technique='deterministic simulation: seeded schedule/fault injection on the stream seam with position accounting from construction; byte-exact remainder oracle'),
 }
 
 
